@@ -153,6 +153,10 @@ def observe(tier, seed, want_cli=True, want_pool=True, cli_focus="all", pid="pip
             cfg = rec.new_cfg()
             run_cli(binary, rec, cfg, "p2", ["circle"], "Hard", 2, 2, extra, work, "circle", 1, verbose=v)
             stats["cli_invocations"] += 1
+        # an option the program accepts and does not use
+        cfg = rec.new_cfg()
+        run_cli(binary, rec, cfg, "p2mm", ["circle"], "Hard", 2, 2, opt + ["--start-config", os.path.join(work, "no_such_file.json")], work, "circle", 1)
+        stats["cli_invocations"] += 1
         # many replicas per thread and long stages (reductions that treat batches of replicas
         # differently show here)
         for (g, sargs, kind, items) in [("p1", ["polygon", "--sides", "4"], "polygon", 4)] + \
